@@ -30,12 +30,16 @@ structure Params where
   way out — `defer s.Close()` precedes the first statement that can return — so a `Send`/`Recv` issued when nobody
   services the stream any more returns "broker closed" instead of blocking -/
   streamEndClosesQuit : Bool
+  /-- the launched command's `Stdin` is the host's stdin FILE itself (`cmd.Stdin = os.Stdin`): os/exec hands the descriptor
+  to the child and starts no copying goroutine — with any other reader `cmd.Wait` also waits for a copier that sits in
+  `Read` on the host's stdin, i.e. for as long as that stays open and idle -/
+  waitOnlyForProcess : Bool
   deriving DecidableEq, Repr
 
 def Params.Good (P : Params) : Prop :=
   P.waitCancelsCtx = true ∧ P.waitSetsExited = true ∧ P.drainsAfterScannerError = true ∧
   P.startWatchesExit = true ∧ P.startHasTimeout = true ∧ P.linesAlwaysDrained = true ∧
-  P.streamEndClosesQuit = true
+  P.streamEndClosesQuit = true ∧ P.waitOnlyForProcess = true
 
 instance (P : Params) : Decidable P.Good := by unfold Params.Good; exact inferInstance
 
@@ -83,7 +87,8 @@ def step (P : Params) (s : State) : Event → Option State
   | .pipesDone =>
     -- a scanner that stopped without draining has also released the wait group (it just no longer reads)
     if s.wait = .waitPipes && !s.stderrOpen && (s.stdout = .done || s.stdout = .stuck) then some { s with wait := .waitProc } else none
-  | .waitReturns => if s.wait = .waitProc && !s.procAlive then some { s with wait := .marking } else none
+  -- (the host's stdin is taken to be open and idle: the environment in which a stdin copier never ends)
+  | .waitReturns => if s.wait = .waitProc && !s.procAlive && P.waitOnlyForProcess then some { s with wait := .marking } else none
   | .markExited =>
     if s.wait = .marking then some { s with wait := .cancelling, exited := s.exited || P.waitSetsExited } else none
   | .cancel =>
